@@ -18,14 +18,14 @@ def register(PROPS):
                  'also two tasks per checkpoint), parsed again and compared: attributes, remaining occurrences (<= 200, up to year 2099) '
                  'and durations; the same through echsq\'s own add_fd()/massage() and through the echse binaries; and one event is '
                  'written with every padding length 0..4300 so that every write call site meets the end of the 4 KiB writer buffer at '
-                 'every offset.  Exhaustive within that bound; anything else is reported.  A many-UIDs driver parses up to 1000 (thorough 5000) events with distinct UIDs of five patterns in one process and requires every task to read, print and re-read under the UID it was submitted with (the UID intern table has several levels).  Further drivers: c05_fdstate (every sequence of up to 4 (6) documents over {regular file, /dev/full, a 5 KiB task to a regular file} on one descriptor number and on two alternating ones: echs_icalify_fini reports loss exactly for the /dev/full documents, successful documents read back); c05_attendees (1-3 (4) ATTENDEE lines with EVERY tuple of address lengths 1..36, with and without mailto:, read, written and read again; plain and under ASan); c05_longlines (SUMMARY, LOCATION, X-ECHS-OFILE, DESCRIPTION lines of every unfolded length 960..1030 (700..1100) in four spellings - LF, CRLF, folded at 75 with LF, with CRLF - must read alike, completely up to 1023 octets, and alike again when pushed in two pieces cut within 2 octets of the line breaks and folds); c05_zones (every sequence of 2-4 events out of six kinds - Europe/Berlin, America/New_York, Asia/Tokyo local times, recurring or one-off, with and without DTEND - in one calendar, each run in a freshly forked image: every task reads, and writes and reads again, to the occurrences and durations it has when it is alone in a fresh image); c05_tzchain (zoned DAILY and WEEKLY streams at every wall-clock half hour 00:00..04:00 in Europe/Berlin, America/New_York, Australia/Sydney, Europe/London, defined in January and in July, WALKED in one process over 300 (1200) positions and written at every one - read back at once, read back after the walk, and as a chain in which the text written at position k is what the walk continues from, both written forms: the text of position k reads to the next 5 occurrences and durations of the live stream, so whatever earlier positions left in process-wide zone state is in effect); c05_mailflags (every subset of X-ECHS-MAIL-OUT/-ERR/-RUN x every order of the lines present x every assignment of the values 0, 1, 2, true x four surroundings: each flag is what its own line says whatever the order and the other two, as read and after both written forms); c05_shortwrite (the writer behind echs_icalify_init / echs_task_icalify / echs_icalify_fini on a descriptor that takes its buffer in pieces: four sets of tasks - small, 1 KB, 5 KB with lines of 1000+ octets, two tasks of 9.5 KB - in both written forms, write(2) interposed; the n-th write call takes only k octets for EVERY call n the undisturbed document makes and EVERY k below the count asked for, or answers -1/EINTR, -1/ENOSPC or 0; then every pair of such deviations, the second at every later call of the run so disturbed, k from {1, 2, half, len-1}: what arrived on the descriptor is octet for octet the undisturbed document, or echs_icalify_fini() reports the loss; plain and under ASan); c05_spans (the time limit given as DTEND: DTSTART / DTEND pairs lying every whole number of days 0..120 (0..400) and 150, 200, 366, 400 days plus 0 s, 1 s, 1 h 15 min 21 s, 86399 s apart, from three starts (before a leap day, one second before a year end, 1 March), written as UTC date-times, as DATE values, with TZID=Asia/Tokyo and with TZID=Europe/Berlin, as a single event and as the first of a YEARLY series of 3: every occurrence read lasts exactly the span between the two stamps (own day-number arithmetic; Berlin: EU summer-time rule), the same event with DURATION:PnDTnHnMnS instead of DTEND reads alike, and after k = 0 (series: also 1) consumed occurrences both written forms read back to the same remaining occurrences, durations and attributes; plain and under ASan).',
+                 'every offset.  Exhaustive within that bound; anything else is reported.  A many-UIDs driver parses up to 1000 (thorough 5000) events with distinct UIDs of five patterns in one process and requires every task to read, print and re-read under the UID it was submitted with (the UID intern table has several levels).  Further drivers: c05_fdstate (every sequence of up to 4 (6) documents over {regular file, /dev/full, a 5 KiB task to a regular file} on one descriptor number and on two alternating ones: echs_icalify_fini reports loss exactly for the /dev/full documents, successful documents read back); c05_attendees (1-3 (4) ATTENDEE lines with EVERY tuple of address lengths 1..36, with and without mailto:, read, written and read again; plain and under ASan); c05_longlines (SUMMARY, LOCATION, X-ECHS-OFILE, DESCRIPTION lines of every unfolded length 960..1030 (700..1100) in four spellings - LF, CRLF, folded at 75 with LF, with CRLF - must read alike, completely up to 1023 octets, and alike again when pushed in two pieces cut within 2 octets of the line breaks and folds); c05_zones (every sequence of 2-4 events out of six kinds - Europe/Berlin, America/New_York, Asia/Tokyo local times, recurring or one-off, with and without DTEND - in one calendar, each run in a freshly forked image: every task reads, and writes and reads again, to the occurrences and durations it has when it is alone in a fresh image); c05_tzchain (zoned DAILY and WEEKLY streams at every wall-clock half hour 00:00..04:00 in Europe/Berlin, America/New_York, Australia/Sydney, Europe/London, defined in January and in July, WALKED in one process over 300 (1200) positions and written at every one - read back at once, read back after the walk, and as a chain in which the text written at position k is what the walk continues from, both written forms: the text of position k reads to the next 5 occurrences and durations of the live stream, so whatever earlier positions left in process-wide zone state is in effect); c05_mailflags (every subset of X-ECHS-MAIL-OUT/-ERR/-RUN x every order of the lines present x every assignment of the values 0, 1, 2, true x four surroundings: each flag is what its own line says whatever the order and the other two, as read and after both written forms); c05_shortwrite (the writer behind echs_icalify_init / echs_task_icalify / echs_icalify_fini on a descriptor that takes its buffer in pieces: four sets of tasks - small, 1 KB, 5 KB with lines of 1000+ octets, two tasks of 9.5 KB - in both written forms, write(2) interposed; the n-th write call takes only k octets for EVERY call n the undisturbed document makes and EVERY k below the count asked for, or answers -1/EINTR, -1/ENOSPC or 0; then every pair of such deviations, the second at every later call of the run so disturbed, k from {1, 2, half, len-1}: what arrived on the descriptor is octet for octet the undisturbed document, or echs_icalify_fini() reports the loss; plain and under ASan); c05_spans (the time limit given as DTEND: DTSTART / DTEND pairs lying every whole number of days 0..120 (0..400) and 150, 200, 366, 400 days plus 0 s, 1 s, 1 h 15 min 21 s, 86399 s apart, from three starts (before a leap day, one second before a year end, 1 March), written as UTC date-times, as DATE values, with TZID=Asia/Tokyo and with TZID=Europe/Berlin, as a single event and as the first of a YEARLY series of 3: every occurrence read lasts exactly the span between the two stamps (own day-number arithmetic; Berlin: EU summer-time rule), the same event with DURATION:PnDTnHnMnS instead of DTEND reads alike, and after k = 0 (series: also 1) consumed occurrences both written forms read back to the same remaining occurrences, durations and attributes; plain and under ASan); c05_scales (EVERY calendar scale name of scale.h - GREGORIAN, HIJRI, HIJRI.IA, IC, IIA, IIC, IIIA, IIIC, IVA, IVC, HIJRI.UMMULQURA, HIJRI.DIYANET - in six rule shapes (MONTHLY BYMONTHDAY 1 / -1 / INTERVAL=2 15, YEARLY BYMONTH+BYMONTHDAY with COUNT and with UNTIL) x DTSTART in the rule\'s own scale or Gregorian x both written forms x k in {0,1,2,7,19}: same remaining occurrences, durations, attributes, and the text written, read and written once more has the same DTSTART and RRULE lines; plain and under ASan); c05_echsq mode=umask (X-ECHS-UMASK with EVERY value 0..0777 spelt with and without the leading 0, and no X-ECHS-UMASK at all, submitted through echsq\'s add_fd()/massage() from a process whose own umask is 027, 0 and 077: a written mask is submitted as written, an absent one as the umask of the process; plain and under ASan).',
         'note': 'Both streams of a round trip come from the code under test: whether the expansion itself is right is C01\'s claim. '
                 'Sub-daily frequencies are taken with single BY parts only (sparse combinations are C09\'s work-bound subject). '
                 'Properties outside the README table (DESCRIPTION, X-GA-*) are carried along; DESCRIPTION is compared in the '
                 'geometry sweep only, where it serves as padding.',
         'rule': 'map: a case is (field subset, calendar defaults); inside it 2 value variants x 2 orders are evaluated; non-trivial = subsets '
                 'with >= 2 properties.  position / cli: a case is one schedule (table entry, or grammar rule x anchor with its terminations); '
-                'evaluations count (schedule, k) round trips; non-trivial = k >= 1 pops and >= 2 occurrences left.  tz-chain: a case is one (zone, start, wall-clock time, FREQ, mode, written form), evaluations count positions written; every case is non-trivial (the walk crosses at least one offset change).  mail-flags: a case is one (lines present, order, values, surroundings); non-trivial = >= 2 mail lines.  short-write: a case is one (document, written form, script of one or two deviating write calls); non-trivial = a deviating call was reached (every case but the 8 undisturbed reference runs).  spans: a case is one (form, single|series, start, number of days), evaluations count events (one per odd-seconds value); non-trivial = at least one whole day between the stamps.  geometry: a case is one '
+                'evaluations count (schedule, k) round trips; non-trivial = k >= 1 pops and >= 2 occurrences left.  tz-chain: a case is one (zone, start, wall-clock time, FREQ, mode, written form), evaluations count positions written; every case is non-trivial (the walk crosses at least one offset change).  mail-flags: a case is one (lines present, order, values, surroundings); non-trivial = >= 2 mail lines.  short-write: a case is one (document, written form, script of one or two deviating write calls); non-trivial = a deviating call was reached (every case but the 8 undisturbed reference runs).  spans: a case is one (form, single|series, start, number of days), evaluations count events (one per odd-seconds value); non-trivial = at least one whole day between the stamps.  scales: a case is one (scale, rule shape, anchor, written form), evaluations count (case, k) round trips; non-trivial = >= 2 occurrences left.  echsq umask: a case is one (value | absent, spelling, process umask); non-trivial = a value is written.  geometry: a case is one '
                 'padding length; non-trivial = the written text exceeds the writer buffer (some line straddles its end).  echsq: non-trivial '
                 '= stream with >= 2 occurrences resp. >= 1 property.  Cases are distinct by construction.',
         'bound': {
@@ -36,13 +36,13 @@ def register(PROPS):
                      '{none, COUNT=65, UNTIL} x k in {0,1,2,3,31,61..66,125..130,189,190,last-1,last,last+1}; echsq add path on the same '
                      'schedules (k=0) and on subsets <= 1; binaries on the extension table x k in {0,1,2,63,64,65,127,128,129,last-1..last+1}; '
                      'geometry: padding 0..4300 step 7 (four lines of 1015..1023 bytes) and 0..1100 step 3 (short LOCATION, tail call sites); '
-                     'ASan: extension table, geometry step 29, map subsets <= 1; short-write: 4 task sets x 2 forms, every write call x every short count 1..len-1 and the three refusals, pairs with the menu counts (40846 cases), plain and ASan; spans: 4 forms x {single, yearly series} x 3 starts x days {0..120, 150, 200, 366, 400} x 4 odd-seconds values (DATE form: whole days) = 9702 events, plain and ASan',
+                     'ASan: extension table, geometry step 29, map subsets <= 1; short-write: 4 task sets x 2 forms, every write call x every short count 1..len-1 and the three refusals, pairs with the menu counts (40846 cases), plain and ASan; spans: 4 forms x {single, yearly series} x 3 starts x days {0..120, 150, 200, 366, 400} x 4 odd-seconds values (DATE form: whole days) = 9702 events, plain and ASan; scales: 12 scale names x 6 rule shapes x 2 anchors x 2 written forms x 5 k (1440 round trips), plain and ASan; echsq umask: 512 values x 2 spellings x 3 process umasks + 3 without a value (3075 submissions), plain and ASan',
             'thorough': 'map: all 65536 subsets x 2 x 2 x 2; position: table + grammar with every pair of BY parts and every date-part triple '
                         '(YEARLY..DAILY; HOURLY..SECONDLY single parts), all menu values, INTERVAL 1,2,3, 8 anchors, terminations {none, '
                         'COUNT=3,65,130, UNTIL}, full k list, both written forms for the table; + every triple of BY parts over the first 3 '
                         'menu values, INTERVAL 1,2, 6 anchors; echsq path on table + grammar slice and '
                         'subsets <= 2; binaries on table + grammar slice with the full k list; geometry: every padding 0..4300 and 0..1100, '
-                        'both forms, k = 0 and 70; ASan: table + grammar slice, geometry every padding, map subsets <= 2; short-write: as quick, pairs also with every 37th short count in both places (197666 cases); spans: every number of days 0..400 (31510 events)',
+                        'both forms, k = 0 and 70; ASan: table + grammar slice, geometry every padding, map subsets <= 2; short-write: as quick, pairs also with every 37th short count in both places (197666 cases); spans: every number of days 0..400 (31510 events); scales and echsq umask: as quick',
         },
         'drivers': [
             D('c05_manyuids', ['maxn=1000'], ['maxn=5000'], label='many-uids', shards=8),
@@ -73,6 +73,10 @@ def register(PROPS):
             D('c05_position', TRIPLES + ['--deadline', '300'], label='position-grammar-triples', tiers=('thorough',)),
             D('c05_echsq', ['mode=sched', 'gram=0'], ['mode=sched', 'gram=1', 'terms=full', 'anchors=2'], label='echsq-add-schedules', shards=4),
             D('c05_echsq', ['mode=fields', 'maxsub=1'], ['mode=fields', 'maxsub=2'], label='echsq-add-fields', shards=4),
+            D('c05_echsq', ['mode=umask'], label='echsq-add-umask', shards=8),
+            D('c05_echsq', ['mode=umask'], label='echsq-add-umask-asan', shards=8, variant='asan'),
+            D('c05_scales', ['names=1', 'tail=1'], label='scales', shards=8),
+            D('c05_scales', ['names=1', 'tail=1'], label='scales-asan', shards=8, variant='asan'),
             D('c05_cli', ['gram=0', 'ks=quick'], ['gram=1', 'ks=full', '--deadline', '400'], label='binaries'),
             # sweep 3: geometry
             D('c05_geometry', ['step=7'], ['step=1'], label='geometry'),
@@ -101,6 +105,8 @@ def register(PROPS):
             'mail-flags: values are 0 (off) and 1, 2, true (non-0 = on); spellings f/false/no are left out (the README says non-0 only); calendar-level X-ECHS-MAIL-* lines are left out (see above)',
             'short-write: a write(2) that takes fewer octets than it was given, or none, is an event the writer has to live with (sockets, pipes, signals); the only thing demanded is that the octets that arrived are the document or that echs_icalify_fini() returns < 0 - whether the writer goes on after a refusal (-1, 0) or gives up is left open, as is a loss reported although everything arrived (counted, never seen); deviations: at most two per document, pairs with k from {1, 2, half, len-1} (thorough: also every 37th k)',
             'spans: DTEND is read as the README has it (the instant by which a job still running is killed), so the duration of an occurrence is the time between the two instants: for UTC, DATE and Asia/Tokyo stamps the difference on the clock, for Europe/Berlin the difference on the clock less the change of the UTC offset between the two stamps (EU rule: +2 h from the last Sunday of March 01:00 UTC to the last Sunday of October 01:00 UTC); stamps on one of the two days of change are left out (counted), as are the later occurrences of a Berlin series (their ends may lie in another offset than the first one\'s); DTEND before or at DTSTART is left out',
+            'scales: the remaining occurrences and attributes of both streams come from the code under test; in addition (names=1) the scale NAME written must be the one in the source text (the reader used to take HIJRI.IC for HIJRI.IA and HIJRI.IIC for HIJRI.IIA, repaired in 636ae63), and (tail=1) rules where SCALE is the last part or is followed by COUNT are included; occurrences stay within 1420..1441 AH, inside both table calendars',
+            'echsq umask: X-ECHS-UMASK is octal with or without a leading 0 (README), 0..0777 are all legal values; the umask of the submitting process is what an event without the line gets (massage())',
             'binaries: DT is the k-th occurrence, so echse merge --unroll DT consumes exactly k; streams in a non-Gregorian output scale are skipped there',
         ],
     }
